@@ -12,6 +12,7 @@ import datetime
 import io
 import json
 import os
+import re
 import types
 
 from run import Broken, Violation
@@ -605,17 +606,26 @@ def _corr_epub(ctx):
     texts = []
     for _ in range(ctx.n(40, 800)):
         doc = gen_doc(rng, lambda r: gen_html_para(r, inline=r.random() < 0.3), nest=rng.random() < 0.3)
-        texts.append((c13b.py_html_doc(doc, xhtml=True, bare=rng.random() < 0.5).decode("utf-8"), doc))
+        bare = rng.random() < 0.5
+        texts.append((c13b.py_html_doc(doc, xhtml=True, bare=bare).decode("utf-8"), doc, bare, None))
+    for _ in range(ctx.n(40, 800)):     # the same kind of document as an XML serializer writes it (<td/>, <p/>, ...)
+        doc = gen_doc(rng, lambda r: gen_html_para(r, inline=r.random() < 0.3), nest=rng.random() < 0.3, allow_empty_cell=True)
+        bare = rng.random() < 0.5
+        mode = gen_xml_mode(rng) or "all"
+        texts.append((xml_form(c13b.py_html_doc(doc, xhtml=True, bare=bare).decode("utf-8"), mode), doc, bare, mode))
     for s in SLOPPY:
-        texts.append(("<html><body>" + s + "</body></html>", None))
-    for _ in range(ctx.n(30, 500)):
+        texts.append(("<html><body>" + s + "</body></html>", None, False, None))
+        texts.append((xml_form("<html><body>" + s + "</body></html>", "all"), None, False, None))
+    for i in range(ctx.n(30, 500) + ctx.n(40, 400)):
         toks = []
         for _ in range(rng.randint(3, 25)):
             t = rng.choice(["table", "tr", "td", "th", "tbody", "p", "div", "b", "br", "title", "script", "span"])
             toks.append(rng.choice([f"<{t}>", f"<{t}>", f"</{t}>", gen_text(rng).replace("<", "&lt;").replace("&", "&amp;"), f"<{t}/>"]))
-        texts.append(("".join(toks), None))
+        if i >= ctx.n(30, 500):        # empty-element tags in a table context: soup inside <table><tr> ... </tr></table>
+            toks = ["<table>", "<tr>"] + [tk for tk in toks if tk not in ("<table>", "</table>", "<script>", "<title>")] + ["</tr>", "</table>"]
+        texts.append(("".join(toks), None, False, None))
     reqs, meta = [], []
-    for text, doc in texts:
+    for text, doc, bare, mode in texts:
         R, events = _Rec.wrap(ex._XhtmlTextExtractor)
         p = R()
         try:
@@ -625,23 +635,57 @@ def _corr_epub(ctx):
             broken.append(Broken("correspondence", "epub:raises", repr(e), case={"fmt": "epub", "text": text}))
             continue
         reqs.append({"op": "c13.epub", "events": list(events)})
-        meta.append((text, doc, p.tables))
+        meta.append((text, doc, bare, mode, p.tables))
     outs = ctx.drive(reqs)
-    for (text, doc, real), o in zip(meta, outs):
+    for (text, doc, bare, mode, real), o in zip(meta, outs):
         ctx.case(("epub", text), nontrivial=bool(real))
-        ctx.count("epub/" + ("document" if doc is not None else "soup"))
+        ctx.count("epub/" + ("document" if doc is not None else "soup") + ("/xml-form" if mode else "")
+                  + ("/with <td/>" if ("<td/>" in text or "<th/>" in text) else ""))
+        case = {"fmt": "epub", "text": text, "doc": doc, "bare": bare, "xml": mode}
         if real != o.get("tables"):
             n_bad += 1
             if n_bad <= 10:
-                broken.append(Broken("correspondence", "c13.epub", f"impl={real!r} model={o.get('tables')!r}",
-                                     case={"fmt": "epub", "text": text, "doc": doc}))
+                broken.append(Broken("correspondence", "c13.epub", f"impl={real!r} model={o.get('tables')!r}", case=case))
         flat_plain = doc is not None and not has_nesting(doc) and _single_fragment(doc)
         if flat_plain and real != _html_truth(doc):
             n_bad += 1
             if n_bad <= 10:
-                broken.append(Broken("correspondence", "truth:epub", f"impl={real!r} ground truth={_html_truth(doc)!r}",
-                                     case={"fmt": "epub", "text": text, "doc": doc}))
+                broken.append(Broken("correspondence", "truth:epub", f"impl={real!r} ground truth={_html_truth(doc)!r}", case=case))
     return broken
+
+
+def _ser_events(evs):
+    """handler calls -> markup (an "se" call is the empty-element tag <t/>)"""
+    return "".join(f"<{e[1]}>" if e[0] == "s" else f"<{e[1]}/>" if e[0] == "se" else f"</{e[1]}>" if e[0] == "e" else c13b._esc(e[1])
+                   for e in evs)
+
+
+_EMPTY_ELEM = re.compile(r"<(td|th|tr|p|b|tbody|thead)></\1>")
+
+
+def xml_form(text, mode, rng=None):
+    """the document as an XML serializer writes it: an element without content (<td></td>, <p></p>, ...) becomes the
+    empty-element tag <td/>.  mode: "all" | "cells" (only td / th) | a list of booleans (one per candidate, cyclic)"""
+    k = [0]
+
+    def sub(m):
+        k[0] += 1
+        if mode == "all" or (mode == "cells" and m.group(1) in ("td", "th")) \
+                or (isinstance(mode, list) and mode and mode[(k[0] - 1) % len(mode)]):
+            return f"<{m.group(1)}/>"
+        return m.group(0)
+    return _EMPTY_ELEM.sub(sub, text)
+
+
+def gen_xml_mode(rng):
+    r = rng.random()
+    if r < 0.4:
+        return None
+    if r < 0.6:
+        return "all"
+    if r < 0.75:
+        return "cells"
+    return [rng.random() < 0.5 for _ in range(rng.randint(1, 5))]
 
 
 def _ser_node(n):
@@ -706,11 +750,30 @@ def _corr_lean_html_epub(ctx):
         for b in gen_doc(rng, lambda r: gen_text(r, ws=0.15), nest=False, allow_empty_cell=(rng.random() < 0.5)):
             d.append(["p", b[1]] if b[0] == "p" else ["t", b[1], [[[x[1] for x in cell] for cell in row] for row in b[2]]])
         docs.append(d)
-    outs = ctx.drive([{"op": "c13.render", "fmt": "epub", "doc": d} for d in docs])
+    # every chapter is ALSO written in an XML form (Props/C13_Xml.lean): the empty elements chosen by `mask` as <t/>
+    masks = [[rng.random() < rng.choice([0.5, 1.0]) for _ in range(40)] for _ in docs]
+    outs = ctx.drive([{"op": "c13.render", "fmt": "epub", "doc": d, "mask": m} for d, m in zip(docs, masks)])
     for doc, o in zip(docs, outs):
         if "drv_error" in o:
             bad("driver:render", o["drv_error"], {"fmt": "epub-lean", "doc": doc})
             continue
+        xtext = _ser_events(o["xml_events"])
+        R, xevents = _Rec.wrap(ex._XhtmlTextExtractor)
+        xp = R()
+        xp.feed(xtext)
+        xp.close()
+        n_se = sum(1 for e in o["xml_events"] if e[0] == "se")
+        ctx.case(("epub-lean-xml", xtext), nontrivial=n_se > 0)
+        ctx.count("epub/lean-rendered/xml-form/" + ("with <t/>" if n_se else "no empty element"))
+        xfrag = [["p", [b[1]]] if b[0] == "p" else ["t", b[1], [[[["p", [t]] for t in cell] for cell in row] for row in b[2]]] for b in doc]
+        xcase = {"fmt": "epub", "doc": xfrag, "bare": False, "text": xtext, "xml": "all"}
+        xwant = [[e[0], e[1], []] if e[0] in ("s", "se") else e for e in o["xml_events"] if not (e[0] == "d" and e[1] == "")]
+        if [[e[0], e[1], []] if e[0] in ("s", "se") else e for e in xevents] != xwant:
+            bad("render:epub-xml-events", f"HTMLParser made the calls {list(xevents)!r}, the Lean XML form is {xwant!r}", xcase)
+        if o["proper"] and o["xml_tables"] != o["spec"]:
+            bad("theorem-instance:epub-xml", f"model {o['xml_tables']!r} != right-hand side of C13_epub_xml_gen {o['spec']!r}", xcase)
+        if o["proper"] and xp.tables != o["spec"]:
+            bad("render-read:epub-xml", f"impl={xp.tables!r} spec={o['spec']!r} for {xtext!r}", xcase)
         text = "".join(f"<{e[1]}>" if e[0] == "s" else f"</{e[1]}>" if e[0] == "e" else c13b._esc(e[1]) for e in o["events"])
         R, events = _Rec.wrap(ex._XhtmlTextExtractor)
         p = R()
@@ -1475,8 +1538,14 @@ def oracle(fmt, case):
         truth = _html_truth(doc)
         bare = bool(case.get("bare"))
         if fmt == "html":
-            return _check_tables(fmt, _read("html", c13b.py_html_doc(doc, bare=bare)), truth, case)
-        res = _read("epub", c13b.epub_package([c13b.py_html_doc(doc, xhtml=True, bare=bare)]))
+            page = c13b.py_html_doc(doc, bare=bare)
+            if case.get("xml"):
+                page = xml_form(page.decode("utf-8"), case["xml"]).encode("utf-8")
+            return _check_tables(fmt, _read("html", page), truth, case)
+        chapter = c13b.py_html_doc(doc, xhtml=True, bare=bare)
+        if case.get("xml"):        # the chapter as an XML serializer writes it: empty elements as <t/>
+            chapter = xml_form(chapter.decode("utf-8"), case["xml"]).encode("utf-8")
+        res = _read("epub", c13b.epub_package([chapter]))
         vs = _check_tables(fmt, res, truth, case)
         for v in vs:
             if v.key == "epub.tables-differ":
@@ -1541,7 +1610,8 @@ def gen_case(rng, fmt, known_shapes=False):
     if fmt == "epub":
         if known_shapes:
             return {"doc": gen_doc(rng, gen_html_para, nest=True), "bare": rng.random() < 0.5}
-        return {"doc": gen_doc(rng, lambda r: gen_html_para(r, inline=False), nest=False), "bare": rng.random() < 0.5}
+        return {"doc": gen_doc(rng, lambda r: gen_html_para(r, inline=False), nest=False, allow_empty_cell=True), "bare": rng.random() < 0.5,
+                "xml": gen_xml_mode(rng)}
     if fmt == "xlsx":
         sheets = []
         for _ in range(rng.randint(1, 2)):
@@ -1593,7 +1663,7 @@ def _case_from_broken(b):
     if fmt in ("docx", "odt") and c.get("doc") is not None:
         return fmt, {"doc": c["doc"]}
     if fmt in ("html", "epub") and c.get("doc") is not None:
-        return fmt, {"doc": c["doc"], "bare": c.get("bare", False)}
+        return fmt, {"doc": c["doc"], "bare": c.get("bare", False), "xml": c.get("xml")}
     if fmt in ("odp", "pptx") and "tables" in c:
         return fmt, {k: c[k] for k in ("tables", "hdr") if k in c}
     if fmt == "xlsx" and "sheets" in c:
